@@ -65,6 +65,13 @@ Theorem C19_fds_balanced : forall pick, fresh_pick pick -> forall inc init ops c
 Proof. exact fds_balanced. Qed.
 Print Assumptions C19_fds_balanced.
 
+(* the descriptor numbers the correspondence check really runs on are choices the theorem above covers:
+   the lowest free number from any base (0 after the standard streams were closed, 1023/1024/1025 when
+   everything below is taken) is a fresh pick *)
+Theorem C19_pick_low_fresh : forall base, fresh_pick (pick_low base).
+Proof. exact pick_low_fresh. Qed.
+Print Assumptions C19_pick_low_fresh.
+
 Theorem C19_close_leaves_minus1 : forall s opn n k, 0 <= s_fd s ->
   match sock_close s opn n k with (_, s', opn') => s_fd s' = -1 /\ ~ In (s_fd s) opn' end.
 Proof. exact close_leaves_minus1. Qed.
@@ -102,3 +109,18 @@ Example C19_ex_history :
   w_open w = [6; 5; 0; 1; 2] /\ dangling w = [] /\
   w_open (cleanup pick_max 4096 w (fun _ => (1%nat, false))) = [0; 1; 2].
 Proof. vm_compute. repeat split. Qed.
+
+(* the same with the numbers a process without standard streams is handed: the listener gets descriptor
+   0, the client 1, the accepted socket 2 (its temporary duplicate 3 is closed again), and deleting
+   everything gives all of them back - 0 included *)
+Example C19_ex_history_fd0 :
+  let ops := [ONew true false; ONew false true; OOpen 0 true true true true; OOpen 1 true true true true;
+              OAccept 0 0 true true; ODup 2 true; OClose 0 0 true; ODup 1 true] in
+  let w := fst (run (pick_low 0) 4096 (mk_world [] []) ops) in
+  map (fun o => match o with Some s => s_fd s | None => -2 end) (w_objs w) = [-1; 1; 2; 3; 0] /\
+  dangling w = [] /\
+  w_open (cleanup (pick_low 0) 4096 w (fun _ => (0%nat, true))) = [].
+Proof. vm_compute. repeat split. Qed.
+
+Example C19_ex_pick_1024 : pick_low 1024 [1025; 1024; 7] = 1026 /\ pick_low 0 [3; 1; 0] = 2.
+Proof. vm_compute. split; reflexivity. Qed.
